@@ -13,7 +13,11 @@ RULE = ("seeded random shot lists (repetitions, idle qubits, single shot, all-eq
         "dist / freq / parity_vec) plus a malformed stream (non-Ising, qubit outside the width, zero shots, one shot "
         "with Bessel, zero totals, ragged frequency keys, width 0); non-trivial: ev/parities with >=2 terms of which two "
         "overlap (share a qubit) and >=2 distinct shots; counts/add_counts/dist with a repeated shot and >=2 distinct "
-        "shots; freq/parity_vec with >=2 marked qubits and >=2 distinct rows; distinct = distinct canonical JSON of the case")
+        "shots; freq/parity_vec with >=2 marked qubits and >=2 distinct rows; histories on ONE Measurements object / ONE "
+        "frequency dict / ONE bit array (query, replace / overwrite / drop-and-append shots keeping their number, add_counts, "
+        "fresh object in place of a dead one, then every statistic again, each judged on the current content; returned "
+        "dicts/arrays are overwritten after each call; operator objects are reused): non-trivial when a length-preserving "
+        "change lies between two queries; distinct = distinct canonical JSON of the case")
 TRUSTED = [
     "numpy integer/float array arithmetic (sum, *, /, %, fancy indexing, reshape, 1-d broadcasting) computes the "
     "element-wise real-number operations up to double rounding (model compared within 1e-9, exactly on dyadic inputs)",
@@ -78,6 +82,28 @@ def corpus():
         {"kind": "freq", "marked": [0], "freq": [["01", 1], ["0", 2], ["110", 3]]},
         {"kind": "freq", "marked": [1], "freq": [["0101", 1], ["", 2]]},
         {"kind": "parity_vec", "rows": ["011", "110", "000"], "marked": [0, 2]},
+        # one Measurements object: statistic, another batch of the SAME size, every statistic again
+        {"kind": "history", "init": [["00", "01", "11", "00"]],
+         "operators": [[_t(2, z(0)), _t(3, z(1)), _t(Fraction(1, 2), z(0, 1))]],
+         "steps": [{"do": "counts"}, {"do": "dist"}, {"do": "ev", "op": 0, "bessel": False},
+                   {"do": "replace", "shots": ["10", "10", "11", "10"]},
+                   {"do": "counts"}, {"do": "dist"}, {"do": "ev", "op": 0, "bessel": False}, {"do": "parities", "op": 0},
+                   {"do": "save"}, {"do": "add_counts", "counts": [["01", 2]]}, {"do": "counts"}, {"do": "ev", "op": 0, "bessel": True}]},
+        # one shot overwritten in place, then k shots dropped and k others appended
+        {"kind": "history", "init": [["00", "00", "11"]], "operators": [[_t(1, z(0)), _t(-1, z(0, 1)), _t(4, [])]],
+         "steps": [{"do": "ev", "op": 0, "bessel": False}, {"do": "setitem", "index": 0, "shot": "01"},
+                   {"do": "counts"}, {"do": "dist"}, {"do": "ev", "op": 0, "bessel": False}, {"do": "parities", "op": 0},
+                   {"do": "swap", "drop": 2, "shots": ["10", "10"]},
+                   {"do": "dist"}, {"do": "counts"}, {"do": "ev", "op": 0, "bessel": True}, {"do": "save"}]},
+        # two objects with equally many shots, one replaced by a fresh object
+        {"kind": "history", "init": [["0", "1", "1"], ["0", "0", "0"]], "operators": [[_t(1, z(0))]],
+         "steps": [{"do": "counts", "obj": 0}, {"do": "counts", "obj": 1}, {"do": "new", "obj": 0, "shots": ["0", "0", "1"]},
+                   {"do": "counts", "obj": 0}, {"do": "ev", "obj": 0, "op": 0, "bessel": False}, {"do": "dist", "obj": 1}]},
+        {"kind": "freq_history", "freq": [["01", 2], ["11", 1]],
+         "steps": [{"do": "query", "marked": [0]}, {"do": "set", "key": "11", "value": 6}, {"do": "query", "marked": [0]},
+                   {"do": "copy"}, {"do": "set", "key": "00", "value": 3}, {"do": "query", "marked": [0, 1], "as_set": True}]},
+        {"kind": "pv_history", "rows": ["011", "110"],
+         "steps": [{"do": "query", "marked": [0, 2]}, {"do": "flip", "row": 0, "col": 0}, {"do": "query", "marked": [0, 2]}]},
     ]
 
 
@@ -214,7 +240,117 @@ def generate(rng, tier):
         if kind == "ev":
             c.update({"bessel": r == 3 or rng.random() < 0.3, "exact": False})
         cases.append(c)
+    # ---- histories on ONE long-lived object: read a statistic, change the shots (mostly keeping their number),
+    #      read every statistic again; the same operator objects are reused for all calls of a history
+    for i in range(260 if big else 45):
+        cases.append(_history(rng, big))
+    for i in range(80 if big else 15):
+        cases.append(_freq_history(rng))
+        cases.append(_pv_history(rng))
     return cases
+
+
+def _different_batch(rng, w, n, cur):
+    for _ in range(6):
+        b = _shots(rng, w, n)
+        if Counter(b) != Counter(cur):
+            return b
+    return [("1" if ch == "0" else "0") + s[1:] for s in cur for ch in s[:1]] if w else list(cur)
+
+
+def _history(rng, big):
+    w = rng.randrange(1, 6)
+    n = rng.choice([1, 2, 3, 4, 4, rng.randrange(1, 25 if big else 13)])
+    nobj = 2 if rng.random() < 0.3 else 1
+    shadows = [_shots(rng, w, n) for _ in range(nobj)]
+    init = [list(x) for x in shadows]
+    operators = [_terms(rng, w, rng.randrange(1, 4), True) for _ in range(rng.randrange(1, 3))]
+    steps = []
+
+    def query(kind, j):
+        st = {"do": kind, "obj": j}
+        if kind in ("ev", "parities"):
+            st["op"] = rng.randrange(len(operators))
+        if kind == "ev":
+            st["bessel"] = rng.random() < 0.3
+        steps.append(st)
+
+    def mutate(j):
+        cur = shadows[j]
+        r = rng.random()
+        if r < 0.4 or not cur:
+            st = {"do": "replace", "shots": _different_batch(rng, w, len(cur) if rng.random() < 0.85 else rng.randrange(1, 9), cur)}
+        elif r < 0.65:
+            k = rng.randrange(len(cur))
+            bits = list(cur[k])
+            q = rng.randrange(w)
+            bits[q] = "1" if bits[q] == "0" else "0"
+            st = {"do": "setitem", "index": k, "shot": "".join(bits)}
+        elif r < 0.8:
+            k = rng.randrange(1, len(cur) + 1)
+            st = {"do": "swap", "drop": k, "shots": _shots(rng, w, k)}
+        elif r < 0.85:
+            st = {"do": "extend", "shots": _shots(rng, w, rng.randrange(1, 4))}
+        elif r < 0.93:
+            keys = list(dict.fromkeys(_shots(rng, w, rng.randrange(1, 4))))
+            st = {"do": "add_counts", "counts": [[kk, rng.randrange(1, 4)] for kk in keys]}
+        else:
+            st = {"do": "new", "shots": _different_batch(rng, w, len(cur), cur)}
+        st["obj"] = j
+        steps.append(st)
+        shadows[j] = _apply(cur, st)
+
+    for j in range(nobj):  # prime whatever might be remembered
+        for kind in rng.sample(["counts", "dist", "ev", "save", "parities"], rng.randrange(1, 3)):
+            query(kind, j)
+    for _ in range(rng.randrange(2, 4)):
+        j = rng.randrange(nobj)
+        mutate(j)
+        kinds = ["counts", "dist", "ev", "parities"] + (["save"] if rng.random() < 0.25 else [])
+        rng.shuffle(kinds)
+        for kind in kinds:
+            query(kind, j)
+        if nobj == 2 and rng.random() < 0.5:  # the other object must be unaffected
+            query(rng.choice(["counts", "ev", "dist"]), 1 - j)
+    return {"kind": "history", "init": init, "operators": operators, "steps": steps}
+
+
+def _freq_history(rng):
+    w = rng.randrange(1, 6)
+    keys = list(dict.fromkeys(_shots(rng, w, rng.randrange(1, 6))))
+    freq = [[k, rng.randrange(1, 20)] for k in keys]
+    cur = dict(map(tuple, freq))
+    steps = []
+    for _ in range(rng.randrange(2, 5)):
+        steps.append({"do": "query", "marked": rng.sample(range(w), rng.randrange(0, w + 1)), "as_set": rng.random() < 0.5})
+        r = rng.random()
+        if r < 0.5:  # same keys, same number of entries, other frequencies
+            k = rng.choice(list(cur))
+            cur[k] = cur[k] + rng.randrange(1, 30)
+            steps.append({"do": "set", "key": k, "value": cur[k]})
+        elif r < 0.7:
+            k = format(rng.randrange(2 ** w), f"0{w}b")
+            cur[k] = rng.randrange(1, 20)
+            steps.append({"do": "set", "key": k, "value": cur[k]})
+        elif r < 0.85 and len(cur) > 1:
+            k = rng.choice(list(cur))
+            del cur[k]
+            steps.append({"do": "del", "key": k})
+        else:
+            steps.append({"do": "copy"})
+    steps.append({"do": "query", "marked": rng.sample(range(w), rng.randrange(0, w + 1)), "as_set": False})
+    return {"kind": "freq_history", "freq": freq, "steps": steps}
+
+
+def _pv_history(rng):
+    w = rng.randrange(1, 6)
+    rows = _shots(rng, w, rng.randrange(1, 7))
+    steps = []
+    for _ in range(rng.randrange(2, 5)):
+        steps.append({"do": "query", "marked": rng.sample(range(w), rng.randrange(0, w + 1))})
+        steps.append({"do": "flip", "row": rng.randrange(len(rows)), "col": rng.randrange(w)})
+    steps.append({"do": "query", "marked": rng.sample(range(w), rng.randrange(1, w + 1))})
+    return {"kind": "pv_history", "rows": rows, "steps": steps}
 
 
 def _overlap(terms):
@@ -224,6 +360,16 @@ def _overlap(terms):
 
 def nontrivial(c):
     k = c["kind"]
+    if k == "history":  # a query, a change of the shots that keeps their number, a query
+        seen_q = False
+        for st in c["steps"]:
+            if st["do"] in QUERIES:
+                seen_q = True
+            elif seen_q and st["do"] in ("replace", "setitem", "swap", "new"):
+                return True
+        return False
+    if k in ("freq_history", "pv_history"):
+        return sum(1 for st in c["steps"] if st["do"] == "query") >= 2
     if k in ("ev", "parities"):
         return len(c["terms"]) >= 2 and _overlap(c["terms"]) and len(set(c["shots"])) >= 2
     if k in ("counts", "dist"):
@@ -273,55 +419,12 @@ def _operator(c, PauliSum, PauliTerm):
     return PauliSum(ts)
 
 
-def run_impl(c):
-    np, Measurements, mm, pp, PauliSum, PauliTerm = _mods()
-    k = c["kind"]
+def _guard(fn):
+    """expected exceptions -> small strings; anything else propagates to the runner"""
     try:
         with warnings.catch_warnings():
             warnings.simplefilter("ignore")
-            if k == "ev":
-                m = Measurements(_tuples(c["shots"]))
-                before = list(m.bitstrings)
-                ev = m.get_expectation_values(_operator(c, PauliSum, PauliTerm), c["bessel"])
-                vals = np.asarray(ev.values)
-                return {"values": [_cnum(v) for v in vals.tolist()] if vals.size else [],
-                        "n_corr": len(ev.correlations), "n_cov": len(ev.estimator_covariances),
-                        "correlations": [[_cnum(x) for x in row] for row in np.asarray(ev.correlations[0]).tolist()],
-                        "covariances": [[_cnum(x) for x in row] for row in np.asarray(ev.estimator_covariances[0]).tolist()],
-                        "shape": [list(vals.shape), list(np.asarray(ev.correlations[0]).shape),
-                                  list(np.asarray(ev.estimator_covariances[0]).shape)],
-                        "shots_intact": before == m.bitstrings}
-            if k == "parities":
-                p = pp.get_parities_from_measurements(_tuples(c["shots"]), _operator(c, PauliSum, PauliTerm))
-                vals = np.asarray(p.values)
-                return {"values": [[_num(a), _num(b)] for a, b in vals.tolist()] if vals.size else [],
-                        "n_corr": len(p.correlations),
-                        "correlations": [[[_num(a), _num(b)] for a, b in row] for row in np.asarray(p.correlations[0]).tolist()]}
-            if k == "counts":
-                m = Measurements(_tuples(c["shots"]))
-                counts = m.get_counts()
-                back = Measurements.from_counts(counts)
-                return {"counts": [[kk, int(v)] for kk, v in counts.items()],
-                        "back": _strs(back.bitstrings),
-                        "back_counts": [[kk, int(v)] for kk, v in back.get_counts().items()]}
-            if k == "add_counts":
-                m = Measurements(_tuples(c["shots"]))
-                m.add_counts({kk: v for kk, v in c["counts"]})
-                fresh = Measurements.from_counts({kk: v for kk, v in c["counts"]})
-                return {"bitstrings": _strs(m.bitstrings), "counts": [[kk, int(v)] for kk, v in m.get_counts().items()],
-                        "from_counts": _strs(fresh.bitstrings)}
-            if k == "dist":
-                m = Measurements(_tuples(c["shots"]))
-                d = m.get_distribution().distribution_dict
-                return {"dist": [["".join(str(int(b)) for b in kk), _num(v)] for kk, v in d.items()]}
-            if k == "freq":
-                v = mm.get_expectation_value_from_frequencies(set(c["marked"]) if c.get("as_set") else list(c["marked"]),
-                                                              {kk: v for kk, v in c["freq"]})
-                return {"value": _num(v), "is_float": isinstance(v, float)}
-            if k == "parity_vec":
-                arr = np.array(_tuples(c["rows"]), dtype=int)
-                v = pp.check_parity_of_vector(arr, list(c["marked"]))
-                return {"parity": [_num(x) for x in np.asarray(v).tolist()]}
+            return fn()
     except TypeError as e:
         return {"err": "err:type", "msg": str(e)[:100]}
     except IndexError as e:
@@ -330,12 +433,292 @@ def run_impl(c):
         return {"err": "err:value", "msg": str(e)[:100]}
     except RuntimeError as e:
         return {"err": "err:runtime", "msg": str(e)[:100]}
+
+
+def _poison_arrays(arrs):
+    """overwrite what a call handed out: a later call must not hand the same storage out again"""
+    for a in arrs:
+        try:
+            a.fill(123456.0)
+        except Exception:
+            pass
+
+
+def _obs_ev(m, op, bessel):
+    np = _mods()[0]
+    before = list(m.bitstrings)
+    ev = m.get_expectation_values(op, bessel)
+    vals = np.asarray(ev.values)
+    out = {"values": [_cnum(v) for v in vals.tolist()] if vals.size else [],
+           "n_corr": len(ev.correlations), "n_cov": len(ev.estimator_covariances),
+           "correlations": [[_cnum(x) for x in row] for row in np.asarray(ev.correlations[0]).tolist()],
+           "covariances": [[_cnum(x) for x in row] for row in np.asarray(ev.estimator_covariances[0]).tolist()],
+           "shape": [list(vals.shape), list(np.asarray(ev.correlations[0]).shape),
+                     list(np.asarray(ev.estimator_covariances[0]).shape)],
+           "shots_intact": before == m.bitstrings}
+    _poison_arrays([ev.values] + list(ev.correlations) + list(ev.estimator_covariances))
+    return out
+
+
+def _obs_parities(measurements, op):
+    """`measurements` is passed as the very list object the caller holds"""
+    np, _, _, pp, _, _ = _mods()
+    before = list(measurements)
+    p = pp.get_parities_from_measurements(measurements, op)
+    vals = np.asarray(p.values)
+    out = {"values": [[_num(a), _num(b)] for a, b in vals.tolist()] if vals.size else [],
+           "n_corr": len(p.correlations),
+           "correlations": [[[_num(a), _num(b)] for a, b in row] for row in np.asarray(p.correlations[0]).tolist()],
+           "measurements_intact": before == list(measurements)}
+    _poison_arrays([p.values] + list(p.correlations))
+    return out
+
+
+def _obs_counts(m):
+    Measurements = _mods()[1]
+    counts = m.get_counts()
+    out = {"counts": [[kk, int(v)] for kk, v in counts.items()]}
+    back = Measurements.from_counts(counts)
+    out["arg_intact"] = [[kk, int(v)] for kk, v in counts.items()] == out["counts"]
+    out["back"] = _strs(back.bitstrings)
+    out["back_counts"] = [[kk, int(v)] for kk, v in back.get_counts().items()]
+    for kk in list(counts):  # poison the returned dict
+        counts[kk] += 3
+    counts["1" * (len(out["counts"][0][0]) if out["counts"] else 1)] = 977
+    return out
+
+
+def _obs_add_counts(m, pairs):
+    Measurements = _mods()[1]
+    arg = {kk: v for kk, v in pairs}
+    m.add_counts(arg)
+    fresh = Measurements.from_counts(arg)
+    return {"bitstrings": _strs(m.bitstrings), "counts": [[kk, int(v)] for kk, v in m.get_counts().items()],
+            "from_counts": _strs(fresh.bitstrings), "arg_intact": [[kk, v] for kk, v in arg.items()] == [list(x) for x in pairs]}
+
+
+def _obs_dist(m):
+    d = m.get_distribution()
+    out = {"dist": [["".join(str(int(b)) for b in kk), _num(v)] for kk, v in d.distribution_dict.items()]}
+    for kk in list(d.distribution_dict):  # poison
+        d.distribution_dict[kk] = 0.123
+    return out
+
+
+def _obs_save(m):
+    import json
+    import os
+    import tempfile
+    fd, path = tempfile.mkstemp(suffix=".json", prefix="c10_")
+    os.close(fd)
+    try:
+        m.save(path)
+        with open(path) as f:
+            data = json.load(f)
+    finally:
+        os.remove(path)
+    return {"counts": [[kk, int(v)] for kk, v in data["counts"].items()],
+            "bitstrings": ["".join(str(int(b)) for b in t) for t in data["bitstrings"]]}
+
+
+def _obs_freq(mm, marked, as_set, d):
+    before = list(d.items())
+    v = mm.get_expectation_value_from_frequencies(set(marked) if as_set else list(marked), d)
+    return {"value": _num(v), "is_float": isinstance(v, float), "arg_intact": before == list(d.items())}
+
+
+def _obs_parity_vec(np, pp, arr, marked):
+    before = arr.copy()
+    v = pp.check_parity_of_vector(arr, list(marked))
+    out = {"parity": [_num(x) for x in np.asarray(v).tolist()], "arg_intact": bool((before == arr).all())}
+    _poison_arrays([v])
+    return out
+
+
+QUERIES = ("counts", "dist", "ev", "parities", "save")
+
+
+def _apply(shadow, st):
+    """effect of a mutation step of a history on the list of shots (plain list semantics)"""
+    do = st["do"]
+    if do in ("replace", "new"):
+        return list(st["shots"])
+    if do == "setitem":
+        out = list(shadow)
+        out[st["index"]] = st["shot"]
+        return out
+    if do == "swap":
+        return list(shadow[st["drop"]:]) + list(st["shots"])
+    if do == "extend":
+        return list(shadow) + list(st["shots"])
+    if do == "add_counts":
+        return list(shadow) + [kk for kk, v in st["counts"] for _ in range(max(v, 0))]
+    return shadow
+
+
+def _subcase(c, st, shadow):
+    do = st["do"]
+    if do == "ev":
+        return {"kind": "ev", "shots": list(shadow), "terms": c["operators"][st["op"]], "bessel": st["bessel"], "exact": False}
+    if do == "parities":
+        return {"kind": "parities", "shots": list(shadow), "terms": c["operators"][st["op"]]}
+    if do in ("counts", "dist", "save"):
+        return {"kind": do, "shots": list(shadow)}
+    if do == "add_counts":
+        return {"kind": "add_counts", "shots": list(shadow), "counts": st["counts"]}
+    return None
+
+
+def _walk(c):
+    """yields (step index, step, sub-case judged on the shots the object holds at that moment or None)"""
+    shadows = [list(x) for x in c["init"]]
+    for i, st in enumerate(c["steps"]):
+        j = st.get("obj", 0)
+        sub = _subcase(c, st, shadows[j])
+        yield i, st, sub
+        shadows[j] = _apply(shadows[j], st)
+
+
+def _run_history(c):
+    import gc
+    np, Measurements, mm, pp, PauliSum, PauliTerm = _mods()
+    objs = [Measurements(_tuples(x)) for x in c["init"]]
+    ops = [_operator({"terms": t, "exact": False}, PauliSum, PauliTerm) for t in c["operators"]]  # reused objects
+    outs = []
+    for st in c["steps"]:
+        j = st.get("obj", 0)
+        m = objs[j]
+        do = st["do"]
+        if do == "counts":
+            o = _guard(lambda: _obs_counts(m))
+        elif do == "dist":
+            o = _guard(lambda: _obs_dist(m))
+        elif do == "ev":
+            o = _guard(lambda: _obs_ev(m, ops[st["op"]], st["bessel"]))
+        elif do == "parities":
+            o = _guard(lambda: _obs_parities(m.bitstrings, ops[st["op"]]))
+        elif do == "save":
+            o = _guard(lambda: _obs_save(m))
+        elif do == "add_counts":
+            o = _guard(lambda: _obs_add_counts(m, st["counts"]))
+        elif do == "replace":
+            m.bitstrings = _tuples(st["shots"])
+            o = None
+        elif do == "setitem":
+            m.bitstrings[st["index"]] = _tuples([st["shot"]])[0]
+            o = None
+        elif do == "swap":
+            del m.bitstrings[: st["drop"]]
+            m.bitstrings += _tuples(st["shots"])
+            o = None
+        elif do == "extend":
+            m.bitstrings += _tuples(st["shots"])
+            o = None
+        elif do == "new":  # the old object dies, a new one (possibly at the same address) takes its place
+            objs[j] = None
+            del m
+            gc.collect()
+            objs[j] = Measurements(_tuples(st["shots"]))
+            o = None
+        else:
+            raise AssertionError("unknown step " + do)
+        if isinstance(o, dict) and objs[j] is not None:
+            o["held"] = _strs(objs[j].bitstrings)
+        outs.append(o)
+    return {"steps": outs}
+
+
+def _fh_walk(c):
+    cur = [list(x) for x in c["freq"]]
+    for i, st in enumerate(c["steps"]):
+        if st["do"] == "query":
+            yield i, st, {"kind": "freq", "marked": st["marked"], "freq": [list(x) for x in cur], "as_set": st.get("as_set", False)}
+        else:
+            yield i, st, None
+            d = dict(map(tuple, cur))
+            if st["do"] == "set":
+                d[st["key"]] = st["value"]
+            elif st["do"] == "del":
+                d.pop(st["key"], None)
+            cur = [[kk, v] for kk, v in d.items()]
+
+
+def _pv_walk(c):
+    rows = list(c["rows"])
+    for i, st in enumerate(c["steps"]):
+        if st["do"] == "query":
+            yield i, st, {"kind": "parity_vec", "rows": list(rows), "marked": st["marked"]}
+        else:
+            yield i, st, None
+            r = list(rows[st["row"]])
+            r[st["col"]] = "1" if r[st["col"]] == "0" else "0"
+            rows[st["row"]] = "".join(r)
+
+
+def run_impl(c):
+    np, Measurements, mm, pp, PauliSum, PauliTerm = _mods()
+    k = c["kind"]
+    if k == "history":
+        return _run_history(c)
+    if k == "freq_history":  # ONE dict object, edited in place between the calls
+        d = {kk: v for kk, v in c["freq"]}
+        outs = []
+        for st in c["steps"]:
+            if st["do"] == "query":
+                outs.append(_guard(lambda: _obs_freq(mm, st["marked"], st.get("as_set", False), d)))
+            elif st["do"] == "set":
+                d[st["key"]] = st["value"]
+                outs.append(None)
+            elif st["do"] == "del":
+                d.pop(st["key"], None)
+                outs.append(None)
+            elif st["do"] == "copy":  # an equal dict at (possibly) the address of the old one
+                d2 = dict(d)
+                del d
+                d = d2
+                outs.append(None)
+        return {"steps": outs}
+    if k == "pv_history":  # ONE array, bits flipped in place between the calls
+        arr = np.array(_tuples(c["rows"]), dtype=int)
+        outs = []
+        for st in c["steps"]:
+            if st["do"] == "query":
+                outs.append(_guard(lambda: _obs_parity_vec(np, pp, arr, st["marked"])))
+            else:
+                arr[st["row"], st["col"]] ^= 1
+                outs.append(None)
+        return {"steps": outs}
+    if k == "ev":
+        return _guard(lambda: _obs_ev(Measurements(_tuples(c["shots"])), _operator(c, PauliSum, PauliTerm), c["bessel"]))
+    if k == "parities":
+        return _guard(lambda: _obs_parities(_tuples(c["shots"]), _operator(c, PauliSum, PauliTerm)))
+    if k == "counts":
+        return _guard(lambda: _obs_counts(Measurements(_tuples(c["shots"]))))
+    if k == "add_counts":
+        return _guard(lambda: _obs_add_counts(Measurements(_tuples(c["shots"])), c["counts"]))
+    if k == "dist":
+        return _guard(lambda: _obs_dist(Measurements(_tuples(c["shots"]))))
+    if k == "save":
+        return _guard(lambda: _obs_save(Measurements(_tuples(c["shots"]))))
+    if k == "freq":
+        return _guard(lambda: _obs_freq(mm, c["marked"], c.get("as_set"), {kk: v for kk, v in c["freq"]}))
+    if k == "parity_vec":
+        return _guard(lambda: _obs_parity_vec(np, pp, np.array(_tuples(c["rows"]), dtype=int), c["marked"]))
     raise AssertionError("unknown kind")
+
+
+WALKS = {"history": _walk, "freq_history": _fh_walk, "pv_history": _pv_walk}
 
 
 # ------------------------------------------------------------------ model
 def requests(c, out):
     k = c["kind"]
+    if k in WALKS:
+        rs = []
+        for i, st, sub in WALKS[k](c):
+            if sub is not None and isinstance(out.get("steps", [None] * (i + 1))[i], dict):
+                rs += requests(sub, out["steps"][i])
+        return rs
     if k == "ev":
         return [("expectation_values", {"shots": c["shots"], "terms": c["terms"], "bessel": c["bessel"]})]
     if k == "parities":
@@ -374,6 +757,18 @@ def _cclose(impl, model, exact):
 
 
 def compare(c, out, resp):
+    if c["kind"] in WALKS:
+        pos = 0
+        for i, st, sub in WALKS[c["kind"]](c):
+            if sub is None or not isinstance(out["steps"][i], dict):
+                continue
+            n = len(requests(sub, out["steps"][i]))
+            if n:
+                msg = compare(sub, out["steps"][i], resp[pos:pos + n])
+                pos += n
+                if msg:
+                    return f"step {i} ({st['do']}): {msg}"
+        return None
     for r in resp:
         if isinstance(r, dict) and "driver_error" in r:
             return "driver error: " + r["driver_error"]
@@ -460,10 +855,65 @@ def _near(impl, want):
     return abs(unrat(impl[0]) - want) <= Fraction(TOL) * (1 + abs(want))
 
 
+def _describe(st):
+    do = st["do"]
+    if do in ("replace", "new", "extend"):
+        return f"{do} with {len(st['shots'])} shots"
+    if do == "setitem":
+        return f"bitstrings[{st['index']}] = {st['shot']!r}"
+    if do == "swap":
+        return f"drop {st['drop']} shots, append {len(st['shots'])}"
+    if do in ("set", "del"):
+        return f"{do} {st.get('key')!r}"
+    if do == "flip":
+        return f"flip bit [{st['row']},{st['col']}]"
+    return do
+
+
+def _oracle_history(c, out):
+    """every query of a history is judged on what the SAME object (dict, array) holds at that moment"""
+    k = c["kind"]
+    steps = out.get("steps")
+    if steps is None or len(steps) != len(c["steps"]):
+        return (f"{k}-shape", f"history of {len(c['steps'])} steps produced {out}")
+    last = {}
+    for i, st, sub in WALKS[k](c):
+        j = st.get("obj", 0)
+        if sub is None:
+            last[j] = st
+            continue
+        o = steps[i]
+        if not isinstance(o, dict):
+            return (f"{k}-shape", f"step {i} produced {o}")
+        r = oracle(sub, o)
+        ctx = f"step {i} ({st['do']}" + (f" on object {j}" if len(c.get("init", [])) > 1 else "") + ")" + \
+            (f" after {_describe(last[j])}" if j in last else "")
+        if r is not None:
+            return (f"{k}-{r[0]}", f"{ctx}: {r[1]} [current content: {sub.get('shots', sub.get('freq', sub.get('rows')))}]")
+        if k == "history" and "held" in o:
+            want = sub["shots"] if st["do"] != "add_counts" else _apply(sub["shots"], st)
+            if sorted(o["held"]) != sorted(want):
+                return ("history-shots-changed", f"{ctx}: the object now holds {sorted(o['held'])}, it was given {sorted(want)}")
+        if st["do"] == "add_counts":
+            last[j] = st
+    return None
+
+
 def oracle(c, out):
     k = c["kind"]
     if "exc" in out:
         return (f"{k}-unexpected-exception", f"{k}: implementation raised {out}")
+    if k in WALKS:
+        return _oracle_history(c, out)
+    if k == "save":
+        shots = c["shots"]
+        if "err" in out:
+            return ("save-raise", f"save raised {out}")
+        if dict(map(tuple, out["counts"])) != dict(Counter(shots)) or len(out["counts"]) != len(Counter(shots)):
+            return ("save-counts", f"saved counts {out['counts']}, the shots have {dict(Counter(shots))}")
+        if sorted(out["bitstrings"]) != sorted(shots):
+            return ("save-bitstrings", f"saved bitstrings {sorted(out['bitstrings'])}, shots {sorted(shots)}")
+        return None
     if k == "ev":
         ok, w = _domain(c)
         shots, n = c["shots"], len(c["shots"])
@@ -543,7 +993,7 @@ def oracle(c, out):
             return ("counts-duplicate-key", "a key appears twice")
         if sum(got.values()) != len(shots):
             return ("counts-sum", f"counts sum to {sum(got.values())}, {len(shots)} shots")
-        for kk in set(shots) | set(got):
+        for kk in sorted(set(shots) | set(got)):
             want = sum(1 for s in shots if s == kk)
             if got.get(kk, 0) != want or (kk in got and want == 0):
                 return ("counts-value", f"count of {kk!r} is {got.get(kk)}, occurs {want} times")
@@ -612,4 +1062,9 @@ def distribution(cases, outs):
             "ev_with_repeated_support": sum(1 for c in ev if len({tuple(sorted(q for q, _ in t["ops"])) for t in c["terms"]}) < len(c["terms"])),
             "max_shots": max((len(c.get("shots", [])) for c in cases), default=0),
             "max_width": max((len(s) for c in cases for s in c.get("shots", [])), default=0),
-            "max_terms": max((len(c.get("terms", [])) for c in cases), default=0)}
+            "max_terms": max((len(c.get("terms", [])) for c in cases), default=0),
+            "histories": sum(1 for c in cases if c["kind"] in WALKS),
+            "history_queries": sum(1 for c in cases if c["kind"] in WALKS for st in c["steps"] if st["do"] in QUERIES + ("query",)),
+            "history_same_length_changes": sum(1 for c in cases if c["kind"] == "history" for st in c["steps"]
+                                               if st["do"] in ("setitem", "swap", "new") or
+                                               (st["do"] == "replace"))}
